@@ -25,8 +25,9 @@ def main():
     rc, out = sh(["git", "-C", REPO, "status", "--porcelain"])
     if out.strip():
         print("repo not clean:", out); sys.exit(2)
-    for diff in sorted(glob.glob(os.path.join(src, "*.diff"))):
-        name = os.path.basename(diff)[:-5]
+    diffs = [(os.path.basename(d)[:-5], d) for d in sorted(glob.glob(os.path.join(src, "*.diff")))]
+    diffs += [(os.path.basename(os.path.dirname(d)), d) for d in sorted(glob.glob(os.path.join(src, "*", "patch.diff")))]
+    for name, diff in diffs:
         if only and name != only:
             continue
         prop = name.split("-")[0]
